@@ -1,4 +1,244 @@
-(* C11 part A property theorems (bellman_ford, floyd_warshall, bfs, dfs).  Filled in as proofs land. *)
+(* C11 part A property theorems: bfs, dfs, bellman_ford, floyd_warshall (solvor/bfs.py, bellman_ford.py,
+   floyd_warshall.py, utils/helpers.py reconstruct_path).  Part B (dijkstra, astar, astar_grid): Props/C11_bestfirst.v.
+   Models: C11/Bfs.v, C11/BellmanFord.v, C11/FloydWarshall.v; shared spec: C11/Paths.v. *)
 From Coq Require Import List ZArith Bool Arith.
-From SV Require Import C11.Paths C11.Bfs C11.BellmanFord C11.FloydWarshall C11.BfsSpec C11.BellmanFordSpec.
+From SV Require Import C11.Paths C11.PathsSimple C11.DistCert C11.Bfs C11.BellmanFord C11.FloydWarshall
+  C11.BfsSpec C11.BellmanFordSpec C11.BfsProofs1 C11.BfsProofs2 C11.BfsTheorems C11.BfsSpecProofs
+  C11.BellmanFordProofs1 C11.BellmanFordProofs2 C11.BellmanFordProofs3 C11.BellmanFordSpecProofs
+  C11.FloydWarshallProofs1 C11.FloydWarshallProofs2 C11.Agree.
 Import ListNotations.
+Local Open Scope Z_scope.
+
+(* ------------------------------------------------------------------ bfs / dfs *)
+(* the model never runs out of fuel: every call has a result *)
+Theorem C11_search_total : forall m adj start goal max_iter,
+  exists r, Bfs.search m adj start goal max_iter = Some r.
+Proof. exact (fun m adj start goal max_iter => search_some adj start m goal max_iter). Qed.
+Print Assumptions C11_search_total.
+
+(* (1) any path returned by bfs or dfs is a genuine path from the start to a goal node and the objective is its
+   number of edges; reconstruct_path always terminates (Hang is never returned: see C11_search_spec) *)
+Theorem C11_path_valid_bfs : forall adj start goal max_iter s p obj,
+  Bfs.bfs adj start goal max_iter = Some (Bfs.Found s p obj) ->
+  exists t, is_path (Bfs.succ_of adj) start t p /\ goal_test goal t = true /\ obj = Z.of_nat (length p) - 1.
+Proof. exact (search_path_valid Bfs.Queue). Qed.
+Print Assumptions C11_path_valid_bfs.
+
+Theorem C11_path_valid_dfs : forall adj start goal max_iter s p obj,
+  Bfs.dfs adj start goal max_iter = Some (Bfs.Found s p obj) ->
+  exists t, is_path (Bfs.succ_of adj) start t p /\ goal_test goal t = true /\ obj = Z.of_nat (length p) - 1.
+Proof. exact (search_path_valid Bfs.Stack). Qed.
+Print Assumptions C11_path_valid_dfs.
+
+(* complete description of every result of bfs / dfs (status, never Hang, MAX_ITER only when max_iter distinct
+   reachable nodes exist, goal None: visited = reachable set unless the limit was hit) *)
+Theorem C11_search_spec : forall m adj start goal max_iter r,
+  Bfs.search m adj start goal max_iter = Some r -> result_spec (Bfs.succ_of adj) start goal m max_iter r.
+Proof. exact search_spec. Qed.
+Print Assumptions C11_search_spec.
+
+(* (2) bfs returns a path with the fewest edges among all paths to all goal nodes *)
+Theorem C11_bfs_shortest : forall adj start goal max_iter s p obj,
+  Bfs.bfs adj start goal max_iter = Some (Bfs.Found s p obj) ->
+  forall t q, is_path (Bfs.succ_of adj) start t q -> goal_test goal t = true -> obj <= Z.of_nat (length q) - 1.
+Proof. exact bfs_shortest. Qed.
+Print Assumptions C11_bfs_shortest.
+
+Theorem C11_bfs_infeasible_iff : forall adj start isg max_iter r,
+  Bfs.bfs adj start (Some isg) max_iter = Some r -> r <> Bfs.NotFound Bfs.MAX_ITER ->
+  (r = Bfs.NotFound Bfs.INFEASIBLE <-> ~ goal_reachable (Bfs.succ_of adj) start isg).
+Proof. exact (search_infeasible_iff Bfs.Queue). Qed.
+Print Assumptions C11_bfs_infeasible_iff.
+
+Theorem C11_dfs_finds_iff_reachable : forall adj start isg max_iter r,
+  Bfs.dfs adj start (Some isg) max_iter = Some r -> r <> Bfs.NotFound Bfs.MAX_ITER ->
+  ((exists p obj, r = Bfs.Found Bfs.FEASIBLE p obj) <-> goal_reachable (Bfs.succ_of adj) start isg).
+Proof. exact (search_finds_iff_reachable Bfs.Stack). Qed.
+Print Assumptions C11_dfs_finds_iff_reachable.
+
+Theorem C11_search_max_iter_real : forall m adj start goal max_iter,
+  Bfs.search m adj start goal max_iter = Some (Bfs.NotFound Bfs.MAX_ITER) ->
+  exists vs, NoDup vs /\ (forall v, In v vs -> reach (Bfs.succ_of adj) start v) /\ max_iter <= Z.of_nat (length vs).
+Proof. exact search_max_iter_real. Qed.
+Print Assumptions C11_search_max_iter_real.
+
+(* ------------------------------------------------------------------ bellman_ford *)
+(* (1)+(3) whenever bellman_ford does not answer UNBOUNDED (and the input is accepted): no negative cycle is
+   reachable, the distance vector is exact (None iff unreachable), a returned path is a walk of the graph from the
+   source to the target whose weight is the reported objective, which is the distance; INFEASIBLE only if the
+   target is unreachable *)
+Theorem C11_bf_sound : forall start g n target,
+  bf_result_spec start g target (BF.bellman_ford start g n target).
+Proof. exact bellman_ford_sound. Qed.
+Print Assumptions C11_bf_sound.
+
+Theorem C11_path_valid_bf : forall start g n target p x,
+  BF.bellman_ford start g n target = BF.Path p x ->
+  exists t, target = Some t /\ walk g start t p x /\ is_dist g start t x.
+Proof.
+  exact (fun start g n target p x H =>
+    proj2 (eq_ind _ (bf_result_spec start g target) (bellman_ford_sound start g n target) _ H)).
+Qed.
+Print Assumptions C11_path_valid_bf.
+
+Theorem C11_bf_dist : forall start g n d,
+  BF.bellman_ford start g n None = BF.Dists d ->
+  forall v, match nth v d None with Some x => is_dist g start v x | None => ~ reachable g start v end.
+Proof.
+  exact (fun start g n d H =>
+    proj2 (proj2 (eq_ind _ (bf_result_spec start g None) (bellman_ford_sound start g n None) _ H))).
+Qed.
+Print Assumptions C11_bf_dist.
+
+(* without a reachable negative closed walk the answer is never UNBOUNDED (n-1 rounds suffice), with one it always is *)
+Theorem C11_bf_unbounded_iff : forall start g n target, BF.valid_input start g n target = true ->
+  (BF.bellman_ford start g n target = BF.Unbounded <-> ~ no_neg_from g start).
+Proof. exact bf_unbounded_iff. Qed.
+Print Assumptions C11_bf_unbounded_iff.
+
+Theorem C11_bf_neg_cycle_unbounded : forall start g n target, BF.valid_input start g n target = true ->
+  neg_cycle_reachable g start -> BF.bellman_ford start g n target = BF.Unbounded.
+Proof. exact bf_neg_cycle_unbounded. Qed.
+Print Assumptions C11_bf_neg_cycle_unbounded.
+
+Theorem C11_bf_unbounded_iff_classical : forall start g n target, BF.valid_input start g n target = true ->
+  (neg_cycle_reachable g start \/ ~ neg_cycle_reachable g start) ->
+  (BF.bellman_ford start g n target = BF.Unbounded <-> neg_cycle_reachable g start).
+Proof. exact bf_unbounded_iff_classical. Qed.
+Print Assumptions C11_bf_unbounded_iff_classical.
+
+(* _reconstruct_indexed always terminates: the parent pointers of finite nodes form a forest at every moment *)
+Theorem C11_bf_no_hang : forall start g n target, BF.bellman_ford start g n target <> BF.Hang.
+Proof. exact bellman_ford_no_hang. Qed.
+Print Assumptions C11_bf_no_hang.
+
+(* ------------------------------------------------------------------ floyd_warshall *)
+(* (4) k-outermost in-place triple loop: UNBOUNDED exactly when the graph (symmetrised when directed = False) has a
+   negative closed walk; otherwise entry [i][j] is the shortest-walk distance, None (inf) iff j is unreachable from i *)
+Theorem C11_fw_unbounded_iff : forall n edges directed, FW.valid_input n edges = true ->
+  (FW.floyd_warshall n edges directed = FW.Unbounded <-> neg_cycle (FW.graph_of edges directed)).
+Proof. exact fw_unbounded_iff. Qed.
+Print Assumptions C11_fw_unbounded_iff.
+
+Theorem C11_fw_dist : forall n edges directed mt, FW.floyd_warshall n edges directed = FW.Dist mt ->
+  forall i j, (i < n)%nat ->
+  match FW.get mt i j with
+  | Some x => is_dist (FW.graph_of edges directed) i j x
+  | None => ~ reachable (FW.graph_of edges directed) i j
+  end.
+Proof. exact fw_dist. Qed.
+Print Assumptions C11_fw_dist.
+
+(* ------------------------------------------------------------------ (5) agreement on shared inputs *)
+Theorem C11_agree_bf_fw : forall s g n d m, (s < n)%nat ->
+  BF.bellman_ford s g n None = BF.Dists d -> FW.floyd_warshall n g true = FW.Dist m ->
+  forall v, nth v d None = FW.get m s v.
+Proof. exact bf_fw_agree. Qed.
+Print Assumptions C11_agree_bf_fw.
+
+Theorem C11_agree_bf_fw_target : forall s g n t p x m, (s < n)%nat ->
+  BF.bellman_ford s g n (Some t) = BF.Path p x -> FW.floyd_warshall n g true = FW.Dist m ->
+  FW.get m s t = Some x.
+Proof. exact bf_fw_agree_target. Qed.
+Print Assumptions C11_agree_bf_fw_target.
+
+Theorem C11_agree_fw_bf_bounded : forall s g n target m,
+  FW.floyd_warshall n g true = FW.Dist m -> BF.bellman_ford s g n target <> BF.Unbounded.
+Proof. exact fw_dist_bf_bounded. Qed.
+Print Assumptions C11_agree_fw_bf_bounded.
+
+(* bfs's objective is the shortest-walk distance in the unit-weight graph of the successor dictionary, hence equal to
+   what bellman_ford reports on that graph *)
+Theorem C11_agree_bfs_unit_distance : forall adj s t max_iter st p obj,
+  Bfs.bfs adj s (Bfs.goal_val t) max_iter = Some (Bfs.Found st p obj) -> is_dist (adj_graph adj) s t obj.
+Proof. exact bfs_is_unit_distance. Qed.
+Print Assumptions C11_agree_bfs_unit_distance.
+
+Theorem C11_agree_bfs_bf : forall adj s t max_iter st p obj n p' x,
+  Bfs.bfs adj s (Bfs.goal_val t) max_iter = Some (Bfs.Found st p obj) ->
+  BF.bellman_ford s (adj_graph adj) n (Some t) = BF.Path p' x -> x = obj.
+Proof. exact bfs_bf_agree. Qed.
+Print Assumptions C11_agree_bfs_bf.
+
+Theorem C11_agree_bfs_dfs : forall adj s isg mi mi' r r',
+  Bfs.bfs adj s (Some isg) mi = Some r -> Bfs.dfs adj s (Some isg) mi' = Some r' ->
+  r <> Bfs.NotFound Bfs.MAX_ITER -> r' <> Bfs.NotFound Bfs.MAX_ITER ->
+  ((exists p o, r = Bfs.Found Bfs.OPTIMAL p o) <-> (exists p o, r' = Bfs.Found Bfs.FEASIBLE p o)).
+Proof. exact bfs_dfs_agree. Qed.
+Print Assumptions C11_agree_bfs_dfs.
+
+(* ------------------------------------------------------------------ boolean checkers run on implementation outputs *)
+Theorem C11_search_spec_check_sound : forall adj s goal max_iter r, BfsSpec.spec_check adj s goal max_iter r = true ->
+  match r with
+  | Bfs.Found _ p obj => exists isg, goal = Some isg /\ BfsSpec.found_spec (Bfs.succ_of adj) s isg p obj
+  | Bfs.Visited vs obj => goal = None /\ In s vs /\ obj = Z.of_nat (length vs) /\
+      (Z.of_nat (length vs) < max_iter -> BfsSpec.visited_complete (Bfs.succ_of adj) s vs)
+  | Bfs.NotFound _ => True
+  | Bfs.Hang => False
+  end.
+Proof. exact BfsSpecProofs.spec_check_sound. Qed.
+Print Assumptions C11_search_spec_check_sound.
+
+Theorem C11_dist_cert_sound : forall g s d n, BFSpec.cert_check g s d n = true ->
+  dist_vector g s d /\ ~ neg_cycle_reachable g s.
+Proof. exact cert_check_sound. Qed.
+Print Assumptions C11_dist_cert_sound.
+
+Theorem C11_bf_spec_check_sound : forall s g n d qs, BFSpec.spec_check s g n d qs = true ->
+  dist_vector g s d /\ ~ neg_cycle_reachable g s /\
+  forall t r, In (t, r) qs ->
+    match r with
+    | BF.Path p x => walk g s t p x /\ is_dist g s t x
+    | BF.Infeasible => ~ reachable g s t
+    | _ => False
+    end.
+Proof. exact BellmanFordSpecProofs.spec_check_sound. Qed.
+Print Assumptions C11_bf_spec_check_sound.
+
+Theorem C11_fw_spec_check_sound : forall n edges directed m, BFSpec.fw_spec_check n edges directed m = true ->
+  forall i, (i < n)%nat -> dist_vector (fw_graph edges directed) i (nth i m []) /\
+                           ~ neg_cycle_reachable (fw_graph edges directed) i.
+Proof. exact fw_spec_check_sound. Qed.
+Print Assumptions C11_fw_spec_check_sound.
+
+(* ------------------------------------------------------------------ non-vacuity *)
+Definition ex_adj : Bfs.adjl := [(0, [1; 2]); (1, [3]); (2, [3; 0]); (3, [4]); (4, [])]%nat.
+
+Example C11_bfs_nonvacuous :
+  Bfs.bfs ex_adj 0%nat (Bfs.goal_val 4%nat) 1000000 = Some (Bfs.Found Bfs.OPTIMAL [0; 1; 3; 4]%nat 3).
+Proof. vm_compute. reflexivity. Qed.
+
+Example C11_dfs_nonvacuous :
+  Bfs.dfs ex_adj 0%nat (Bfs.goal_val 4%nat) 1000000 = Some (Bfs.Found Bfs.FEASIBLE [0; 2; 3; 4]%nat 3)
+  /\ Bfs.dfs ex_adj 3%nat (Bfs.goal_val 0%nat) 1000000 = Some (Bfs.NotFound Bfs.INFEASIBLE)
+  /\ Bfs.bfs ex_adj 0%nat (Bfs.goal_val 4%nat) 3 = Some (Bfs.NotFound Bfs.MAX_ITER).
+Proof. vm_compute. auto. Qed.
+
+Definition E (u v : nat) (w : Z) : nat * nat * Z := (u, v, w).
+Definition ex_g : wgraph := [E 0 1 4; E 0 2 1; E 2 1 2; E 1 3 (-5); E 3 1 5; E 0 1 7; E 2 2 0].
+Definition ex_gneg : wgraph := [E 0 1 1; E 1 2 1; E 2 3 1; E 3 1 (-3)].
+
+Example C11_bf_nonvacuous :
+  BF.valid_input 0 ex_g 5 (Some 3%nat) = true
+  /\ BF.bellman_ford 0 ex_g 5 (Some 3%nat) = BF.Path [0; 2; 1; 3]%nat (-2)
+  /\ BF.bellman_ford 0 ex_g 5 None = BF.Dists [Some 0; Some 3; Some 1; Some (-2); None]
+  /\ BF.bellman_ford 0 ex_g 5 (Some 4%nat) = BF.Infeasible
+  /\ BF.bellman_ford 0 ex_gneg 4 None = BF.Unbounded.
+Proof. vm_compute. auto. Qed.
+
+Example C11_cert_nonvacuous :
+  BFSpec.spec_check 0 ex_g 5 [Some 0; Some 3; Some 1; Some (-2); None]
+    [(3%nat, BF.Path [0; 2; 1; 3]%nat (-2)); (4%nat, BF.Infeasible)] = true
+  /\ BFSpec.cert_check ex_g 0 [Some 0; Some 4; Some 1; Some (-1); None] 5 = false.
+Proof. vm_compute. auto. Qed.
+
+Example C11_fw_nonvacuous :
+  FW.valid_input 4 ex_g = true
+  /\ FW.floyd_warshall 4 ex_g true =
+       FW.Dist [[Some 0; Some 3; Some 1; Some (-2)]; [None; Some 0; None; Some (-5)];
+                [None; Some 2; Some 0; Some (-3)]; [None; Some 5; None; Some 0]]
+  /\ FW.floyd_warshall 4 ex_gneg true = FW.Unbounded
+  /\ FW.floyd_warshall 4 ex_g false = FW.Unbounded
+  /\ FW.floyd_warshall 3 [E 0 1 5; E 1 0 2; E 1 2 1] false =
+       FW.Dist [[Some 0; Some 2; Some 3]; [Some 2; Some 0; Some 1]; [Some 3; Some 1; Some 0]].
+Proof. vm_compute. auto. Qed.
